@@ -25,10 +25,12 @@ ASSUMPTIONS = ["definitions: volume = sum of per-substance volumes; concentratio
                "mixture in the denominator unit; rounding to config.precisions / internal_precision",
                "observers whose denominator is zero for the vessel are skipped (undefined)"]
 def shard_config(shard, tier):
-    """two of eight shards run under other documented default densities: solids/enzymes without volume (inf), and
-    finite densities other than 1"""
+    """three of eight shards run under other documented settings: default densities inf (solids/enzymes without
+    volume) and 2.5/0.4, and other display precisions"""
     return {5: {'default_solid_density': float('inf'), 'default_enzyme_density': float('inf')},
-            6: {'default_solid_density': 2.5, 'default_enzyme_density': 0.4}}.get(shard % 8)
+            6: {'default_solid_density': 2.5, 'default_enzyme_density': 0.4},
+            # other display precisions, 0 digits for a moles unit and a mass unit among them
+            4: {'precisions': {'default': 2, 'umol': 0, 'uL': 2, 'mg': 0, 'nmol': 4}}}.get(shard % 8)
 
 
 REQUIRED_CLASSES = {'quick': ['obs:volume', 'obs:get_concentration', 'obs:get_volumes', 'obs:get_moles'],
@@ -235,6 +237,10 @@ class Observers(Monitor):
             tol = 0.51 * 10 ** -p + 1e-9 * abs(x) + 1e-12
             if abs(g - x) > tol:
                 col.report(f"{name}/wrong-value", dict(detail, well=idx, got=g, expected=x, precision=p), case)
+                return
+            # ... and it is that value ROUNDED to the configured precision, not the value to some other number of digits
+            if abs(g - round(g, p)) > 1e-9 * max(1.0, abs(g)):
+                col.report(f"{name}/not-rounded-to-configured-precision", dict(detail, well=idx, got=g, precision=p), case)
                 return
 
     def concentration(self, world, op, live, v, base, case, nontrivial):
